@@ -1,9 +1,460 @@
 package main
 
+// Models of heavier library entry points: encoding/json, regexp, time,
+// net/mail, net/url, strconv.ParseFloat, reggen, reflect.TypeOf, os.ReadFile.
+// Concrete arguments: the real Go function is called natively. Symbolic
+// subjects: an uninterpreted predicate over the byte vector (the semantics of
+// RE2 / RFC 3339 / RFC 5322 / URLs are trusted to the Go standard library).
+
 import (
+	"bytes"
+	"encoding/json"
+	"fmt"
+	"go/types"
+	"net/mail"
+	"net/url"
+	"reflect"
+	"regexp"
+	"sort"
+	"strconv"
+	"strings"
+	"time"
+
 	"golang.org/x/tools/go/ssa"
 )
 
+type nativeRegexp struct {
+	re  *regexp.Regexp
+	src string
+}
+
 func (ex *Exec) stdModel(name string, fn *ssa.Function, args []Val, caller *frame) (Val, bool) {
+	switch name {
+	case "encoding/json.Marshal":
+		a := args[0].(iface)
+		var buf bytes.Buffer
+		if err := ex.jsonMarshal(&buf, a.t, a.v, caller, 0); err != nil {
+			return tuple{[]Val(nil), err}, true
+		}
+		return tuple{sliceOfBytes(strBytes(buf.String())), iface{}}, true
+	case "encoding/json.Unmarshal":
+		// single use: a JSON string literal into *string
+		data := bytesOfSlice(args[0].([]Val))
+		dst := args[1].(iface)
+		cb, ok := concreteBytes(data)
+		if !ok {
+			panic(unsupported{"json.Unmarshal of symbolic data"})
+		}
+		p, okp := dst.v.(*Val)
+		if !okp || p == nil {
+			panic(unsupported{"json.Unmarshal target"})
+		}
+		if _, isStr := (*p).(string); !isStr {
+			panic(unsupported{"json.Unmarshal into non-string"})
+		}
+		var s string
+		if err := json.Unmarshal(cb, &s); err != nil {
+			return ex.nativeError(err), true
+		}
+		*p = s
+		return iface{}, true
+	case "regexp.Compile", "regexp.MustCompile":
+		pat, ok := args[0].(string)
+		if !ok {
+			panic(unsupported{"regexp.Compile of symbolic pattern"})
+		}
+		re, err := regexp.Compile(pat)
+		if name == "regexp.MustCompile" {
+			if err != nil {
+				panic(goPanic{iface{t: types.Typ[types.String], v: "regexp: Compile(" + strconv.Quote(pat) + "): " + err.Error()}})
+			}
+			return ex.nativePtr(&nativeRegexp{re, pat}), true
+		}
+		if err != nil {
+			return tuple{(*Val)(nil), ex.nativeError(err)}, true
+		}
+		return tuple{ex.nativePtr(&nativeRegexp{re, pat}), iface{}}, true
+	case "(*regexp.Regexp).Match", "(*regexp.Regexp).MatchString":
+		nr := ex.nativeOf(args[0]).(*nativeRegexp)
+		var subj []Int
+		if s, ok := args[1].([]Val); ok {
+			subj = bytesOfSlice(s)
+		} else {
+			subj = strBytes(args[1])
+		}
+		if cb, ok := concreteBytes(subj); ok {
+			return Bool{C: nr.re.Match(cb)}, true
+		}
+		return ex.ufPredicate("re_"+sanitize(nr.src), subj), true
+	case "(*regexp.Regexp).String":
+		return ex.nativeOf(args[0]).(*nativeRegexp).src, true
+	case "time.Parse":
+		layout, ok := args[0].(string)
+		if !ok {
+			panic(unsupported{"time.Parse symbolic layout"})
+		}
+		subj := strBytes(args[1])
+		zeroT := zero(fn.Signature.Results().At(0).Type())
+		if cb, ok := concreteBytes(subj); ok {
+			_, err := time.Parse(layout, string(cb))
+			return tuple{zeroT, ex.nativeError(err)}, true
+		}
+		okb := ex.ufPredicate("time_"+sanitize(layout), subj)
+		if ex.decide(okb) {
+			return tuple{zeroT, iface{}}, true
+		}
+		return tuple{zeroT, ex.errorVal("parsing time: cannot parse")}, true
+	case "net/mail.ParseAddress":
+		subj := strBytes(args[0])
+		if cb, ok := concreteBytes(subj); ok {
+			_, err := mail.ParseAddress(string(cb))
+			return tuple{(*Val)(nil), ex.nativeError(err)}, true
+		}
+		if ex.decide(ex.ufPredicate("mail_addr", subj)) {
+			return tuple{(*Val)(nil), iface{}}, true
+		}
+		return tuple{(*Val)(nil), ex.errorVal("mail: invalid address")}, true
+	case "net/url.ParseRequestURI":
+		subj := strBytes(args[0])
+		if cb, ok := concreteBytes(subj); ok {
+			u, err := url.ParseRequestURI(string(cb))
+			if err != nil {
+				return tuple{(*Val)(nil), ex.nativeError(err)}, true
+			}
+			return tuple{ex.nativePtr(u), iface{}}, true
+		}
+		if ex.decide(ex.ufPredicate("url_requri", subj)) {
+			return tuple{ex.nativePtr(&symURL{subj}), iface{}}, true
+		}
+		return tuple{(*Val)(nil), ex.errorVal("parse: invalid URI for request")}, true
+	case "(*net/url.URL).IsAbs":
+		switch u := ex.nativeOf(args[0]).(type) {
+		case *url.URL:
+			return Bool{C: u.IsAbs()}, true
+		case *symURL:
+			return ex.ufPredicate("url_isabs", u.b), true
+		}
+	case "(*net/url.URL).Hostname":
+		switch u := ex.nativeOf(args[0]).(type) {
+		case *url.URL:
+			return u.Hostname(), true
+		case *symURL:
+			// only emptiness is inspected by the library
+			if ex.decide(ex.ufPredicate("url_hashost", u.b)) {
+				return "host", true
+			}
+			return "", true
+		}
+	case "strconv.ParseFloat":
+		s, ok := args[0].(string)
+		if !ok {
+			panic(unsupported{"strconv.ParseFloat symbolic"})
+		}
+		f, err := strconv.ParseFloat(s, int(args[1].(Int).C))
+		return tuple{f, ex.nativeError(err)}, true
+	case "reflect.TypeOf":
+		a := args[0].(iface)
+		if a.t == nil {
+			return iface{}, true
+		}
+		return iface{t: ex.env.errorStringT, v: nativeVal{fmtStringer{typeStr(a.t)}}}, true
+	case "os.ReadFile":
+		panic(unsupported{"os.ReadFile"})
+	case "github.com/lucasjones/reggen.NewGenerator":
+		pat, ok := args[0].(string)
+		if !ok {
+			panic(unsupported{"reggen.NewGenerator symbolic pattern"})
+		}
+		g, err := newReggen(pat)
+		if err != nil {
+			return tuple{(*Val)(nil), ex.nativeError(err)}, true
+		}
+		return tuple{ex.nativePtr(g), iface{}}, true
+	case "(*github.com/lucasjones/reggen.Generator).SetSeed":
+		ex.nativeOf(args[0]).(*reggenGen).seed = int64(args[1].(Int).C)
+		return nil, true
+	case "(*github.com/lucasjones/reggen.Generator).Generate":
+		g := ex.nativeOf(args[0]).(*reggenGen)
+		return g.generate(int(args[1].(Int).C)), true
+	}
 	return nil, false
+}
+
+type symURL struct{ b []Int }
+
+func sanitize(s string) string {
+	var sb strings.Builder
+	for i := 0; i < len(s); i++ {
+		c := s[i]
+		if c >= 'a' && c <= 'z' || c >= 'A' && c <= 'Z' || c >= '0' && c <= '9' {
+			sb.WriteByte(c)
+		} else {
+			fmt.Fprintf(&sb, "_%02x", c)
+		}
+	}
+	return sb.String()
+}
+
+// nativePtr boxes a native object as a pointer value of the interpreter.
+func (ex *Exec) nativePtr(x interface{}) *Val {
+	p := new(Val)
+	*p = nativeVal{x}
+	return p
+}
+
+func (ex *Exec) nativeOf(v Val) interface{} {
+	p, ok := v.(*Val)
+	if !ok || p == nil {
+		panic(goPanic{ex.runtimeError("invalid memory address or nil pointer dereference")})
+	}
+	nv, ok := (*p).(nativeVal)
+	if !ok {
+		panic(unsupported{"native object expected"})
+	}
+	return nv.v
+}
+
+// ufPredicate applies an uninterpreted predicate (keyed by name and length)
+// to a byte vector.
+func (ex *Exec) ufPredicate(name string, b []Int) Bool {
+	args := make([]*Term, len(b))
+	for i, x := range b {
+		args[i] = ex.it(x)
+	}
+	uf := fmt.Sprintf("uf_%s_%d", name, len(b))
+	if len(args) == 0 {
+		return Bool{T: ex.tb.UF(uf, 0)}
+	}
+	return Bool{T: ex.tb.UF(uf, 0, args...)}
+}
+
+// ---- encoding/json.Marshal over interpreter values (concrete data only)
+
+func (ex *Exec) findMethod(t types.Type, name string) *ssa.Function {
+	ms := ex.env.prog.MethodSets.MethodSet(t)
+	for i := 0; i < ms.Len(); i++ {
+		if ms.At(i).Obj().Name() == name {
+			return ex.env.prog.MethodValue(ms.At(i))
+		}
+	}
+	return nil
+}
+
+func (ex *Exec) jsonMarshal(buf *bytes.Buffer, t types.Type, v Val, caller *frame, depth int) Val {
+	if depth > 200 {
+		panic(fuelOut{"json.Marshal depth"})
+	}
+	if t == nil {
+		buf.WriteString("null")
+		return nil
+	}
+	// Marshaler?
+	if _, isPtr := t.Underlying().(*types.Pointer); isPtr {
+		if p, ok := v.(*Val); ok && p == nil {
+			buf.WriteString("null")
+			return nil
+		}
+	}
+	if _, isI := t.Underlying().(*types.Interface); !isI {
+		if m := ex.findMethod(t, "MarshalJSON"); m != nil {
+			r := ex.call(m, []Val{v}, nil, caller).(tuple)
+			if e := r[1].(iface); e.t != nil {
+				return e
+			}
+			cb, ok := concreteBytes(bytesOfSlice(r[0].([]Val)))
+			if !ok {
+				panic(unsupported{"json.Marshal: symbolic MarshalJSON output"})
+			}
+			var cbuf bytes.Buffer
+			if err := json.Compact(&cbuf, cb); err != nil {
+				return ex.errorVal("json: error calling MarshalJSON: " + err.Error())
+			}
+			buf.Write(cbuf.Bytes())
+			return nil
+		}
+	}
+	switch u := t.Underlying().(type) {
+	case *types.Basic:
+		switch x := v.(type) {
+		case string:
+			js, _ := json.Marshal(x)
+			buf.Write(js)
+		case Int:
+			if x.sym() {
+				panic(unsupported{"json.Marshal symbolic int"})
+			}
+			_, signed, _ := intInfo(t)
+			if signed {
+				buf.WriteString(strconv.FormatInt(x.signed(), 10))
+			} else {
+				buf.WriteString(strconv.FormatUint(x.C, 10))
+			}
+		case Bool:
+			if x.sym() {
+				panic(unsupported{"json.Marshal symbolic bool"})
+			}
+			buf.WriteString(strconv.FormatBool(x.C))
+		case float64:
+			js, _ := json.Marshal(x)
+			buf.Write(js)
+		default:
+			panic(unsupported{fmt.Sprintf("json.Marshal basic %T", v)})
+		}
+	case *types.Struct:
+		sv := v.(structure)
+		buf.WriteByte('{')
+		first := true
+		for i := 0; i < u.NumFields(); i++ {
+			f := u.Field(i)
+			if !f.Exported() {
+				continue
+			}
+			name := f.Name()
+			omit := false
+			if tag := reflect.StructTag(u.Tag(i)).Get("json"); tag != "" {
+				parts := strings.Split(tag, ",")
+				if parts[0] == "-" {
+					continue
+				}
+				if parts[0] != "" {
+					name = parts[0]
+				}
+				for _, o := range parts[1:] {
+					if o == "omitempty" {
+						omit = true
+					}
+				}
+			}
+			if omit && jsonEmpty(sv[i]) {
+				continue
+			}
+			if !first {
+				buf.WriteByte(',')
+			}
+			first = false
+			js, _ := json.Marshal(name)
+			buf.Write(js)
+			buf.WriteByte(':')
+			if e := ex.jsonMarshal(buf, f.Type(), sv[i], caller, depth+1); e != nil {
+				return e
+			}
+		}
+		buf.WriteByte('}')
+	case *types.Slice:
+		s, _ := v.([]Val)
+		if s == nil {
+			buf.WriteString("null")
+			return nil
+		}
+		buf.WriteByte('[')
+		for i, e := range s {
+			if i > 0 {
+				buf.WriteByte(',')
+			}
+			if er := ex.jsonMarshal(buf, u.Elem(), e, caller, depth+1); er != nil {
+				return er
+			}
+		}
+		buf.WriteByte(']')
+	case *types.Array:
+		s := v.(array)
+		buf.WriteByte('[')
+		for i, e := range s {
+			if i > 0 {
+				buf.WriteByte(',')
+			}
+			if er := ex.jsonMarshal(buf, u.Elem(), e, caller, depth+1); er != nil {
+				return er
+			}
+		}
+		buf.WriteByte(']')
+	case *types.Pointer:
+		p := v.(*Val)
+		if p == nil {
+			buf.WriteString("null")
+			return nil
+		}
+		return ex.jsonMarshal(buf, u.Elem(), *p, caller, depth+1)
+	case *types.Interface:
+		i := v.(iface)
+		if i.t == nil {
+			buf.WriteString("null")
+			return nil
+		}
+		return ex.jsonMarshal(buf, i.t, i.v, caller, depth+1)
+	case *types.Map:
+		m, _ := v.(*gomap)
+		if m == nil {
+			buf.WriteString("null")
+			return nil
+		}
+		type kv struct {
+			k string
+			v Val
+		}
+		var kvs []kv
+		for i, k := range m.keys {
+			ks, ok := k.(string)
+			if !ok {
+				panic(unsupported{"json.Marshal map key"})
+			}
+			kvs = append(kvs, kv{ks, m.vals[i]})
+		}
+		sort.Slice(kvs, func(i, j int) bool { return kvs[i].k < kvs[j].k })
+		buf.WriteByte('{')
+		for i, e := range kvs {
+			if i > 0 {
+				buf.WriteByte(',')
+			}
+			js, _ := json.Marshal(e.k)
+			buf.Write(js)
+			buf.WriteByte(':')
+			if er := ex.jsonMarshal(buf, u.Elem(), e.v, caller, depth+1); er != nil {
+				return er
+			}
+		}
+		buf.WriteByte('}')
+	default:
+		panic(unsupported{"json.Marshal of " + t.String()})
+	}
+	return nil
+}
+
+func jsonEmpty(v Val) bool {
+	switch x := v.(type) {
+	case string:
+		return x == ""
+	case Int:
+		return !x.sym() && x.C == 0
+	case Bool:
+		return !x.sym() && !x.C
+	case []Val:
+		return len(x) == 0
+	case *Val:
+		return x == nil
+	case iface:
+		return x.t == nil
+	case *gomap:
+		return x == nil || len(x.keys) == 0
+	}
+	return false
+}
+
+// ---- reggen: called natively through a tiny shim (the package is a module dependency of /repo;
+// the engine does not link it, so generation is delegated to the native replay binary when needed).
+
+type reggenGen struct {
+	pat  string
+	seed int64
+}
+
+func newReggen(pat string) (*reggenGen, error) {
+	if _, err := regexp.Compile(pat); err != nil {
+		return nil, err
+	}
+	return &reggenGen{pat: pat}, nil
+}
+
+func (g *reggenGen) generate(limit int) Val {
+	panic(unsupported{"reggen.Generate (regex example generation is not modelled)"})
 }
